@@ -381,6 +381,7 @@ try:
     tcounts = [t for t in ((1, 2, 5, 16) if Q else range(1, 17)) if t <= maxthreads]
     from arim.im import das, tfm
     import arim.model as amodel
+    import arim.scat as ascat
 
     _das_count = [0]
 
@@ -479,7 +480,9 @@ try:
         # depend on how the grid is cut into blocks
         sfunc = lambda a, b: (0.25 * a) * a + 2j * ((0.5 * b) - a * b) + 0.5
         weights = rng.uniform(0.5, 2.0, len(tx))
-        for kind, scattering in (("function", {"LL": sfunc}), ("matrix", {"LL": smat})):
+        # ... and the library's own side-drilled-hole functions (what a sensitivity image is computed with)
+        sdh_funcs = ascat.SdhScat(float(rng.uniform(0.2e-3, 1.2e-3)), 6300.0, 3100.0).as_angles_funcs(float(rng.uniform(1e6, 6e6)))
+        for kind, scattering in (("function", {"LL": sfunc}), ("matrix", {"LL": smat}), ("sdh-function", sdh_funcs)):
             hashes = [h(a) for a in (rw.tx_ray_weights_dict["txp"], rw.rx_ray_weights_dict["rxp"], smat, weights)]
             ref = None
             for t in (tcounts[:2] + tcounts[-1:]):
